@@ -10,11 +10,13 @@ import (
 // a scheduling point before the operation, and a park right after a wake-up, so that the
 // goroutine the Go runtime made runnable does nothing before the simulator releases it.
 
+//go:norace
 func Recv1[T any](site int, ch <-chan T) T {
 	v, _ := Recv2(site, ch)
 	return v
 }
 
+//go:norace
 func Recv2[T any](site int, ch <-chan T) (T, bool) {
 	s := S
 	if s == nil {
@@ -34,6 +36,7 @@ func Recv2[T any](site int, ch <-chan T) (T, bool) {
 	return v, ok
 }
 
+//go:norace
 func Send[T any](site int, ch chan<- T, v T) {
 	s := S
 	if s == nil {
@@ -65,8 +68,10 @@ type RCase[T any] struct {
 	ok bool
 }
 
+//go:norace
 func RecvCase[T any](ch <-chan T) *RCase[T] { return &RCase[T]{ch: ch} }
 
+//go:norace
 func (c *RCase[T]) try() bool {
 	if c.ch == nil {
 		return false
@@ -80,6 +85,7 @@ func (c *RCase[T]) try() bool {
 	}
 }
 
+//go:norace
 func (c *RCase[T]) reflectCase() reflect.SelectCase {
 	if c.ch == nil {
 		return reflect.SelectCase{Dir: reflect.SelectRecv}
@@ -87,6 +93,7 @@ func (c *RCase[T]) reflectCase() reflect.SelectCase {
 	return reflect.SelectCase{Dir: reflect.SelectRecv, Chan: reflect.ValueOf(c.ch)}
 }
 
+//go:norace
 func (c *RCase[T]) set(v reflect.Value, ok bool) {
 	c.ok = ok
 	if v.IsValid() {
@@ -95,7 +102,9 @@ func (c *RCase[T]) set(v reflect.Value, ok bool) {
 }
 
 // Val is the received value; Get also reports whether the channel was open.
+//go:norace
 func (c *RCase[T]) Val() T          { return c.v }
+//go:norace
 func (c *RCase[T]) Get() (T, bool) { return c.v, c.ok }
 
 type SCase[T any] struct {
@@ -103,8 +112,10 @@ type SCase[T any] struct {
 	v  T
 }
 
+//go:norace
 func SendCase[T any](ch chan<- T, v T) *SCase[T] { return &SCase[T]{ch: ch, v: v} }
 
+//go:norace
 func (c *SCase[T]) try() bool {
 	if c.ch == nil {
 		return false
@@ -117,6 +128,7 @@ func (c *SCase[T]) try() bool {
 	}
 }
 
+//go:norace
 func (c *SCase[T]) reflectCase() reflect.SelectCase {
 	if c.ch == nil {
 		return reflect.SelectCase{Dir: reflect.SelectSend}
@@ -124,12 +136,14 @@ func (c *SCase[T]) reflectCase() reflect.SelectCase {
 	return reflect.SelectCase{Dir: reflect.SelectSend, Chan: reflect.ValueOf(c.ch), Send: reflect.ValueOf(&c.v).Elem()}
 }
 
+//go:norace
 func (c *SCase[T]) set(reflect.Value, bool) {}
 
 // Select implements a rewritten select statement. It returns the index of the chosen
 // case, or -1 for the default clause. Among several ready cases the simulator chooses
 // (rotation from a recorded choice); if none is ready and there is no default it blocks
 // natively on all of them and the waker determines the case.
+//go:norace
 func Select(site int, hasDefault bool, cases ...Case) int {
 	s := S
 	if s == nil {
@@ -164,6 +178,7 @@ func Select(site int, hasDefault bool, cases ...Case) int {
 	return i
 }
 
+//go:norace
 func nativeSelect(hasDefault bool, cases []Case) int {
 	rc := make([]reflect.SelectCase, 0, len(cases)+1)
 	for _, c := range cases {
@@ -183,6 +198,7 @@ func nativeSelect(hasDefault bool, cases []Case) int {
 // MapKeys returns the keys of m in the order the iteration-order seam dictates: sorted
 // canonically and then permuted by the iteration stream (or sorted / reversed / rotated
 // for the deterministic modes).
+//go:norace
 func MapKeys[K comparable, V any](site int, m map[K]V) []K {
 	keys := make([]K, 0, len(m))
 	for k := range m {
@@ -236,10 +252,12 @@ type OfflineIterCfg struct {
 
 var OfflineIter *OfflineIterCfg
 
+//go:norace
 func SetOfflineIter(mode, rot int, seed uint64) {
 	OfflineIter = &OfflineIterCfg{Mode: mode, Rot: rot, rng: splitmix{seed}}
 }
 
+//go:norace
 func sortKeys[K comparable](keys []K) {
 	if len(keys) < 2 {
 		return
@@ -257,10 +275,12 @@ func sortKeys[K comparable](keys []K) {
 // SendTo is the two-step form of Send used by rewritten send statements: the value is
 // passed by assignability (an untyped constant or a concrete value into an interface
 // element type), which one-step type inference would reject.
+//go:norace
 func SendTo[T any](site int, ch chan<- T) func(T) {
 	return func(v T) { Send(site, ch, v) }
 }
 
+//go:norace
 func SendCaseTo[T any](ch chan<- T) func(T) *SCase[T] {
 	return func(v T) *SCase[T] { return SendCase(ch, v) }
 }
@@ -274,11 +294,13 @@ type Entry[K comparable, V any] struct {
 	k K
 }
 
+//go:norace
 func (e Entry[K, V]) Get() (K, V, bool) {
 	v, ok := e.m[e.k]
 	return e.k, v, ok
 }
 
+//go:norace
 func MapEntries[K comparable, V any](site int, m map[K]V) []Entry[K, V] {
 	keys := MapKeys(site, m)
 	es := make([]Entry[K, V], len(keys))
@@ -291,6 +313,7 @@ func MapEntries[K comparable, V any](site int, m map[K]V) []Entry[K, V] {
 // HookFn receives the name-anchored observations inserted by the rewriter (R7).
 var HookFn func(kind, a, b string)
 
+//go:norace
 func Hook(kind, a, b string) {
 	if HookFn != nil {
 		HookFn(kind, a, b)
